@@ -29,6 +29,10 @@ type dtEnv struct {
 	bools map[string]bool
 	// store: under dtTrack, the values integer locals were assigned along the path being evaluated
 	store map[types.Object]int64
+	// sym: under dtTrack, the expression each other local was last assigned along the path
+	sym map[types.Object]dtBound
+	// flags: under dtTrack, the values boolean locals were assigned along the path
+	flags map[types.Object]bool
 }
 
 type dtFrame struct {
@@ -407,6 +411,11 @@ func (ev *dtEval) evalBool(x ast.Expr, fr *dtFrame, env *dtEnv) (bool, error) {
 		if b, ok := fr.subst[fr.info.ObjectOf(v)]; ok {
 			return ev.evalBool(b.expr, b.frame, env)
 		}
+		if env != nil && env.flags != nil {
+			if val, ok := env.flags[fr.info.ObjectOf(v)]; ok {
+				return val, nil
+			}
+		}
 		if d, paren := ev.aliasOf(v, fr); d != nil && paren {
 			return ev.evalBool(d, fr, env)
 		}
@@ -523,16 +532,32 @@ type dtGuard struct {
 	assign ast.Node
 }
 
-// trackedInts: the integer locals of the function whose assignments the dtTrack reading follows: declared in the body,
-// never assigned inside a function literal, address never taken.
+// trackedInts: the locals of the function whose assignments the dtTrack reading follows: declared in the body, never
+// assigned inside a function literal, address never taken. (Integers are carried by value, the others as the expression
+// last assigned.)
 func trackedInts(g *an.Graph) map[types.Object]bool {
 	out := map[types.Object]bool{}
 	if g.Body == nil {
 		return out
 	}
 	bad := map[types.Object]bool{}
+	isLocal := func(o types.Object) bool {
+		v, ok := o.(*types.Var)
+		return ok && !v.IsField() && v.Pkg() != nil && v.Parent() != v.Pkg().Scope()
+	}
 	var walk func(n ast.Node, inLit bool)
 	walk = func(n ast.Node, inLit bool) {
+		note := func(e ast.Expr) {
+			if id, ok := an.Unparen(e).(*ast.Ident); ok {
+				if o := g.Info.ObjectOf(id); o != nil && isLocal(o) {
+					if inLit && !(o.Pos() >= n.Pos() && o.Pos() < n.End()) {
+						bad[o] = true
+					} else if !inLit {
+						out[o] = true
+					}
+				}
+			}
+		}
 		ast.Inspect(n, func(m ast.Node) bool {
 			switch x := m.(type) {
 			case *ast.FuncLit:
@@ -542,30 +567,14 @@ func trackedInts(g *an.Graph) map[types.Object]bool {
 				}
 			case *ast.AssignStmt:
 				for _, l := range x.Lhs {
-					if id, ok := an.Unparen(l).(*ast.Ident); ok {
-						if o := g.Info.ObjectOf(id); o != nil && isIntLike(o.Type()) {
-							if inLit && !(o.Pos() >= n.Pos() && o.Pos() < n.End()) {
-								bad[o] = true
-							} else if !inLit {
-								out[o] = true
-							}
-						}
-					}
+					note(l)
 				}
 			case *ast.IncDecStmt:
-				if id, ok := an.Unparen(x.X).(*ast.Ident); ok {
-					if o := g.Info.ObjectOf(id); o != nil && isIntLike(o.Type()) {
-						if inLit && !(o.Pos() >= n.Pos() && o.Pos() < n.End()) {
-							bad[o] = true
-						} else if !inLit {
-							out[o] = true
-						}
-					}
-				}
+				note(x.X)
 			case *ast.ValueSpec:
 				if !inLit {
 					for _, nm := range x.Names {
-						if o := g.Info.Defs[nm]; o != nil && isIntLike(o.Type()) {
+						if o := g.Info.Defs[nm]; o != nil && isLocal(o) {
 							out[o] = true
 						}
 					}
@@ -749,6 +758,8 @@ func allPaths(g *an.Graph, n ast.Node) (paths [][]dtGuard, ok bool) {
 func (ev *dtEval) evalGuards(gs []dtGuard, fr0 *dtFrame, env *dtEnv) (bool, error) {
 	if env != nil {
 		env.store = nil
+		env.sym = nil
+		env.flags = nil
 	}
 	for _, gd := range gs {
 		var v bool
@@ -1144,6 +1155,12 @@ func (ev *dtEval) execAssign(n ast.Node, fr *dtFrame, env *dtEnv) error {
 		if len(x.Lhs) != len(x.Rhs) {
 			for _, l := range x.Lhs {
 				forget(an.ObjOf(fr.info, l))
+				if env != nil && env.sym != nil {
+					delete(env.sym, an.ObjOf(fr.info, l))
+				}
+				if env != nil && env.flags != nil {
+					delete(env.flags, an.ObjOf(fr.info, l))
+				}
 			}
 			return nil
 		}
@@ -1151,6 +1168,43 @@ func (ev *dtEval) execAssign(n ast.Node, fr *dtFrame, env *dtEnv) error {
 		isInt := make([]bool, len(x.Lhs))
 		for i, l := range x.Lhs {
 			o := an.ObjOf(fr.info, l)
+			if _, isId := an.Unparen(l).(*ast.Ident); isId && o != nil && isBoolType(o.Type()) {
+				if x.Tok != token.ASSIGN && x.Tok != token.DEFINE {
+					continue
+				}
+				// a constant, or a copy of another tracked flag (anything else stays a free atom named by the local)
+				r := an.Unparen(x.Rhs[i])
+				_, isIdent := r.(*ast.Ident)
+				tv, hasTV := fr.info.Types[r]
+				if !(isIdent || (hasTV && tv.Value != nil)) {
+					if env != nil && env.flags != nil {
+						delete(env.flags, o)
+					}
+					continue
+				}
+				v, err := ev.evalBool(r, fr, env)
+				if err != nil {
+					return err
+				}
+				if env != nil {
+					if env.flags == nil {
+						env.flags = map[types.Object]bool{}
+					}
+					env.flags[o] = v
+				}
+				continue
+			}
+			if _, isId := an.Unparen(l).(*ast.Ident); isId && o != nil && !isIntLike(o.Type()) && env != nil {
+				if env.sym == nil {
+					env.sym = map[types.Object]dtBound{}
+				}
+				if x.Tok == token.ASSIGN || x.Tok == token.DEFINE {
+					env.sym[o] = dtBound{expr: x.Rhs[i], frame: fr}
+				} else {
+					delete(env.sym, o)
+				}
+				continue
+			}
 			if _, isId := an.Unparen(l).(*ast.Ident); !isId || o == nil || !isIntLike(o.Type()) {
 				continue
 			}
@@ -1250,4 +1304,44 @@ func (ev *dtEval) predicatePaths(fn *an.Func) [][]dtGuard {
 	}
 	ev.predMemo[fn] = out
 	return out
+}
+
+// canonSym renders x like canon, reading a local through the expression the path last assigned to it (dtTrack).
+func (ev *dtEval) canonSym(x ast.Expr, fr *dtFrame, env *dtEnv) string {
+	for depth := 0; depth < 6 && env != nil && env.sym != nil; depth++ {
+		id, ok := an.Unparen(x).(*ast.Ident)
+		if !ok {
+			break
+		}
+		b, has := env.sym[fr.info.ObjectOf(id)]
+		if !has {
+			break
+		}
+		x, fr = b.expr, b.frame
+	}
+	return stripOuterParens(ev.canon(x, fr))
+}
+
+func isBoolType(t types.Type) bool {
+	if t == nil {
+		return false
+	}
+	b, ok := t.Underlying().(*types.Basic)
+	return ok && b.Info()&types.IsBoolean != 0
+}
+
+// symExpr reads a local through the expression the path last assigned to it (dtTrack).
+func (ev *dtEval) symExpr(x ast.Expr, fr *dtFrame, env *dtEnv) (ast.Expr, *dtFrame) {
+	for depth := 0; depth < 6 && env != nil && env.sym != nil; depth++ {
+		id, ok := an.Unparen(x).(*ast.Ident)
+		if !ok {
+			break
+		}
+		b, has := env.sym[fr.info.ObjectOf(id)]
+		if !has {
+			break
+		}
+		x, fr = b.expr, b.frame
+	}
+	return x, fr
 }
